@@ -339,6 +339,27 @@ func targets() []*target {
 			},
 			params: []string{"(str : bytes)"}, result: "option (bytes * bytes * bool)", final: "Some (firstLine, restLines, eol)"},
 
+		// ---- PrintCtx.Begin / End: the framing of a record (C02: the final line feed; C04: the braces) ----
+		{pkg: slogPkg, recv: "PrintCtx", fn: "Begin", coq: "pc_begin", file: "Layout", strict: true, fallback: "LayoutRef.pc_begin_ref",
+			comment: "(returns s.buf; None = panic)", panicT: "None", retfmt: "Some (%s)", effects: []string{"s_buf"},
+			calls:  map[string]callSpec{"*PrintCtx.pcAppendByte": {state: "s_buf ++ [zb %0]"}},
+			params: []string{"(s_jsonMode : bool)", "(s_buf : bytes)"}, result: "option bytes", final: "Some (s_buf)"},
+		{pkg: slogPkg, recv: "PrintCtx", fn: "End", coq: "pc_end", file: "Layout", strict: true, fallback: "LayoutRef.pc_end_ref",
+			comment: "(returns s.buf; None = panic)", panicT: "None", retfmt: "Some (%s)", effects: []string{"s_buf"},
+			calls:  map[string]callSpec{"*PrintCtx.pcAppendByte": {state: "s_buf ++ [zb %0]"}},
+			params: []string{"(s_jsonMode : bool)", "(s_buf : bytes)", "(newline : bool)"}, result: "option bytes", final: "Some (s_buf)"},
+		// checkedfuncname: the function name printed in the caller part (C14, C06); with Lcallerpackagename the
+		// provider table is applied in the order of the binder (strings.ReplaceAll is the parameter f_replace_all)
+		{pkg: slogPkg, recv: "", fn: "checkedfuncname", coq: "checked_funcname", file: "Layout", strict: true, fallback: "LayoutRef.checked_funcname_ref",
+			comment: "(None = panic)", panicT: "None", retfmt: "Some (%s)",
+			calls: map[string]callSpec{
+				"IsAnyBitsSet":       {pure: "negb (Z.land g_flags %0 =? 0)"},
+				"strings.ReplaceAll": {pure: "f_replace_all %0 %1 %2"},
+				"strings.LastIndex":  {pure: "str_last_index %0 %1"},
+			},
+			params: []string{"(f_replace_all : bytes -> bytes -> bytes -> bytes)", "(g_flags : Z)", "(m_codeHostingProvidersMap : list (bytes * bytes))", "(name : bytes)"},
+			result: "option bytes", final: "None"},
+
 		// ---- the skeleton of printImpl after the blank-line rule (C02, C04-C06, C14): which part printers run,
 		// in what order, under which mode bit / flag; the level colours; ONE printOut of pc.Bytes() after End.
 		// The part printers are parameters over the context pc (LayoutRef.pcs)
